@@ -72,6 +72,9 @@ def splice(repo, scratch, kind='kani'):
             shutil.copy(s, os.path.join(scratch, item))
     os.makedirs(os.path.join(scratch, '.cargo'), exist_ok=True)
     open(os.path.join(scratch, '.cargo', 'config.toml'), 'w').write('[net]\noffline = true\n')
+    nocache = kind == 'replay-nocache'
+    if nocache:
+        kind = 'replay'
     modname = {'kani': 'verif_kani', 'native': 'verif_native', 'replay': 'verif_replay'}[kind]
     attr = '#[cfg(kani)]' if kind == 'kani' else '#[cfg(test)]'
     added_files, touched = [], []
@@ -94,6 +97,18 @@ def splice(repo, scratch, kind='kani'):
         hf = os.path.join(d, modname + '.rs')
         open(hf, 'w').write(text)
         added_files.append(os.path.relpath(hf, scratch))
+    edited = {}
+    if nocache:
+        # [C11 "with result caching neutralised"] the one probe of the transposition table whose result alpha_beta uses
+        # is replaced by "nothing found"; any other shape of that probe -> the replay is not run (undecided)
+        rel = 'src/search.rs'
+        txt = open(os.path.join(scratch, rel)).read()
+        rx = re.compile(r'if let Some\(entry\) = TRANSPOSITION_TABLE\s*\.read\(\)\s*\.expect\("[^"]*"\)\s*\.get\(&self\.board\.zkey\)')
+        if len(rx.findall(txt)) != 1:
+            raise SpliceError('lost anchor: the transposition-table probe of alpha_beta (cache cannot be neutralised mechanically)')
+        new = rx.sub('if let Some(entry) = None::<&TTEntry>', txt)
+        edited[rel] = new if rel not in touched else None
+        open(os.path.join(scratch, rel), 'w').write(new)
     if kind == 'replay':
         # process-level replay tests: an integration-test file of the scratch copy (the repository has no tests/ directory of its own)
         if os.path.exists(os.path.join(repo, 'tests')):
@@ -118,6 +133,8 @@ def splice(repo, scratch, kind='kani'):
                 raise SpliceError('unexpected file in scratch: ' + rel)
             a = open(orig).read()
             b = open(os.path.join(root, fn)).read()
+            if rel in edited:
+                a = rx.sub('if let Some(entry) = None::<&TTEntry>', a)
             if rel in touched:
                 expect = a + '\n%s mod %s;\n' % (attr, modname)
                 if b != expect:
